@@ -58,6 +58,19 @@ def env_with(extra=None):
     return e
 
 
+_LOOP_CTR = [0]
+
+
+def loopback():
+    """A loopback IP "127.x.y.z" private to this python process (the counterpart of vfLoopback in
+    harness/common/vf_common.go.tmpl, same formula: y.z encode the pid, x counts the calls). The checks may run in
+    parallel: every daemon / stub a python leg starts binds such an address instead of 127.0.0.1, so that no client of
+    another check that still reconnects to a recycled 127.0.0.1 port can reach it (all of 127/8 is local on Linux)."""
+    p, c = os.getpid(), _LOOP_CTR[0]
+    _LOOP_CTR[0] += 1
+    return "127.%d.%d.%d" % (1 + (c + 7 * (p // 65024)) % 254, (p // 254) % 256, 1 + p % 254)
+
+
 def sh(cmd, timeout=600, env=None, cwd=None, stdin=None, stdin_path=None):
     """Run cmd (list or str). Returns (rc, stdout+stderr text). rc=-9 on timeout."""
     fin = None
@@ -276,7 +289,28 @@ class Ctx:
         with open(common, "w") as fh:
             fh.write(txt)
         ov["Replace"][os.path.join(REPO, pkg, "zz_verif_common_test.go")] = common
+        # optional per-package helpers (harness/common/vf_common_<pkgname>.go.tmpl), e.g. vfStartNSQD for package nsqd:
+        # the repo's own mustStartNSQD forces 127.0.0.1:0, the harnesses bind process-private loopback addresses
+        pkgtmpl = os.path.join(ROOT, "harness", "common", "vf_common_%s.go.tmpl" % pkgname)
+        if os.path.exists(pkgtmpl):
+            pcommon = os.path.join(self.work, "vf_common_%s_%s.go" % (pkgname, name))
+            with open(pkgtmpl) as fh:
+                ptxt = fh.read().replace("PKGNAME", pkgname)
+            with open(pcommon, "w") as fh:
+                fh.write(ptxt)
+            ov["Replace"][os.path.join(REPO, pkg, "zz_verif_common_%s_test.go" % pkgname)] = pcommon
         for src in files:
+            # lint (log only): listeners belong on a process-private loopback address (BUILDING.md, "Never listen on 127.0.0.1")
+            try:
+                with open(src) as fh:
+                    stxt = fh.read()
+                for pat in ('"127.0.0.1:0"', '"localhost:0"', '"0.0.0.0:', 'httptest.NewServer(', 'httptest.NewTLSServer(',
+                            'httptest.NewUnstartedServer(', 'mustStartNSQD(', 'mustStartLookupd(', 'mustStartNSQLookupd('):
+                    if pat in stxt:
+                        self.log("HARNESS-LINT %s uses %s: bind a private loopback address (vfLoopback/vfListen/vfHTTPServer/"
+                                 "vfStartNSQD) - the checks may run in parallel" % (os.path.relpath(src, ROOT), pat))
+            except OSError:
+                pass
             base = os.path.basename(src)
             if not base.endswith("_test.go"):
                 base = base[:-3] + "_test.go"
